@@ -58,13 +58,13 @@ func (p *PubSub) handleNewStream(s network.Stream) {
 	sentNewStream := false
 
 	defer func() {
-		verifYield(verifInboundExit)
 		p.inboundStreamsMx.Lock()
 		if p.inboundStreams[peer].s == s {
 			delete(p.inboundStreams, peer)
 		}
 		p.inboundStreamsMx.Unlock()
 
+		verifYield(verifInboundExit)
 		if sentNewStream {
 			select {
 			case p.incoming <- incomingUnion{kind: incomingKindClosedStream, s: s}:
